@@ -24,7 +24,7 @@ class C18(Prop):
     thorough_runs = 600000
 
     def families(self, tier):
-        return [("sync", 3), ("async", 2)]
+        return [("sync", 3), ("async", 2), ("two-sessions", 1)]
 
     def expected_counters(self, tier):
         return ["probe.strays-consumed", "probe.strays-span-beyond-T", "probe.match-before-deadline", "probe.match-after-deadline", "probe.silent", "probe.return-time-checked", "probe.many-strays", "probe.refresh-checked", "fault.slow-client"]
@@ -41,6 +41,28 @@ class C18(Prop):
             agent["communities"] = [sess["community"]]
         T = rng.choice([50_000_000, 200_000_000, 1_000_000_000, 1_500_000_000, 2_500_000_000, 10_000_000_000])
         sess["timeout_ns"] = T
+        if family == "two-sessions":
+            # two sessions of one process with different timeouts, each seeing stray datagrams
+            family = rng.choice(["sync", "sync", "async"])
+            sess2 = dict(sess)
+            sess2["timeout_ns"] = rng.choice([x for x in (50_000_000, 400_000_000, 2_000_000_000) if x != T])
+            ops, scripts = [], {}
+            oids = [r[0] for r in agent["mib"]] or ["1.3.6.1.2.1.1.1.0"]
+            for opid in range(1, rng.randint(3, 6)):
+                s_ = rng.choice([0, 1])
+                Ts = T if s_ == 0 else sess2["timeout_ns"]
+                ops.append({"id": opid, "s": s_, "op": "get", "oid": rng.choice(oids)})
+                items = []
+                t = 0
+                for _ in range(rng.randint(1, 3)):
+                    t += rng.randrange(Ts // 10, Ts // 3) | 1
+                    items.append({"k": "genuine", "rewrite": {"request-id": "xor1"}, "delay_ns": t})
+                if rng.random() < 0.5:
+                    items.append({"k": "genuine", "delay_ns": (t + rng.randrange(Ts // 10, Ts // 3)) | 1})
+                else:
+                    items.append({"k": "none"})
+                scripts["%d:1" % opid] = {"replies": items}
+            return {"flavour": family, "agent": agent, "sessions": [sess, sess2], "ops": ops, "scripts": scripts, "latency_ns": 1_000_001}
         oids = [r[0] for r in agent["mib"]] or ["1.3.6.1.2.1.1.1.0"]
         ops, scripts = [], {}
         for opid in range(1, rng.randint(1, 3) + 1):
@@ -58,6 +80,9 @@ class C18(Prop):
                 else:
                     rw = rng.choice([{"request-id": "xor1"}, {"request-id": "prev"}, {"community": b"nobody".hex()}, {"request-id": "zero"}])
                 items.append({"k": "genuine", "rewrite": rw, "delay_ns": t})
+            if rng.random() < 0.15:
+                # a stray in the last millisecond before the deadline
+                items.append({"k": "genuine", "rewrite": {"request-id": "xor1"}, "delay_ns": (T - rng.choice([800_000, 500_000, 300_000, 100_000, 20_000])) | 1})
             if k and rng.random() < 0.3:
                 # strays just after the deadline (inside a jiffy-rounded re-armed wait)
                 for _ in range(rng.randint(1, 2)):
